@@ -172,7 +172,7 @@ def native_history(rp, m, hist, drift_val):
             ms = min(b // 10 ** 6, 10 ** 6)
             disp = ms / 1000.0
             toks.append('R,%s,%s,%s,%s,%d,%d,%d,%d,%d' % (f64_hex(0.0), f64_hex(0.0), f64_hex(disp), f64_hex(16.0), leap, 10 ** 6, 0, mval(m, d['as_s']), mval(m, d['as_n'])))
-            expect.append(('R', c, ms, mval(m, d['phc']), b))
+            expect.append(('R', c, ms, mval(m, d['phc']), b, mval(m, d['as_s']), mval(m, d['as_n'])))
         elif d['kind'] == 1:
             toks.append('G'); expect.append(('G',))
         else:
@@ -194,13 +194,18 @@ def oracle_history(out, expect, drift, prop):
         return bad
     seen = False
     cur = None       # (as_s, as_n, bound)
+    cur_bound_prev = None
     for i, (e, r) in enumerate(zip(expect, recs)):
         as_s, as_n, vs, vn, bound, dr, status = r
         if e[0] == 'R':
             cls = e[1]
             if cls == 1:
                 seen = True
-                cur = (as_s, as_n, bound)         # the step's own as_of was given; the bound is the code's
+                # the as-of instant of a synchronised report is the one that was handed in; the bound is whatever the real extract returned (C07's subject)
+                cur = (e[5], e[6], bound)
+                if prop == 'C08' and cur_bound_prev is not None and e[2] != cur_bound_prev[0] and bound == cur_bound_prev[1]:
+                    bad.append('C08: step %d (R): a synchronised report with a different dispersion left the published bound unchanged (%d)' % (i + 1, bound))
+                cur_bound_prev = (e[2], bound)
         elif e[0] == 'G':
             cls = 2
         else:
